@@ -12,6 +12,7 @@
 //   single-byte corruptions of every object, including those that blow up size fields.
 // All random choices derive from VERIF_SEED.
 #include "common.h"
+#include <algorithm>
 #include <functional>
 #include <nano/configurable.h>
 #include <nano/core/stream.h>
@@ -108,6 +109,34 @@ std::string serialize(const tobject& object)
         FAIL("WRITE stream failed");
     }
     return out.str();
+}
+
+// round trip into a destination that is NOT fresh: `used` already holds another object of the same type (a re-used
+// model / feature / tensor); after a successful read it must be observationally the written object, i.e. serialize to
+// the very same bytes (seeded changes C15/4, C15/5: an "early exit" / "avoid reallocating" shortcut in a reader keeps
+// stale state of the destination while reporting success)
+template <class tobject>
+void reuse_roundtrip(const char* kind, const std::string& bytes, tobject used)
+{
+    try
+    {
+        std::istringstream stream(bytes);
+        if (!::nano::read(stream, used))
+        {
+            FAIL("ROUNDTRIP-REUSED %s: reading a valid stream into a used destination failed hex=%s", kind, hex(bytes).c_str());
+            return;
+        }
+        const auto again = serialize(used);
+        if (again != bytes)
+        {
+            FAIL("ROUNDTRIP-REUSED %s: the destination keeps stale state: re-serialized hex=%s written hex=%s", kind,
+                 hex(again).c_str(), hex(bytes).c_str());
+        }
+    }
+    catch (const std::exception& e)
+    {
+        FAIL("ROUNDTRIP-REUSED %s: exception %s hex=%s", kind, e.what(), hex(bytes).c_str());
+    }
 }
 
 // soft RLIMIT_AS = current virtual size + 4 MiB while corrupted streams are read (plain build only): absurd size
@@ -374,6 +403,20 @@ void one_tensor(const char* tname, size_t max_elems)
         }
     }
 
+    // re-used destinations: the previous tensor of this type and rank; the same element count in another shape
+    // (dimensions reversed; for empty tensors another empty shape); a one-element tensor
+    {
+        static tensor_mem_t<tscalar, R> prev;
+        reuse_roundtrip("tensor", bytes, prev);
+        auto rdims = dims;
+        std::reverse(rdims.begin(), rdims.end());
+        reuse_roundtrip("tensor", bytes, tensor_mem_t<tscalar, R>(rdims));
+        std::array<tensor_size_t, R> zdims{};
+        for (size_t i = 0; i < R; ++i) zdims[i] = (i + 1 == R) ? 0 : 3;
+        reuse_roundtrip("tensor", bytes, tensor_mem_t<tscalar, R>(zdims));
+        prev = tensor;
+    }
+
     std::ostringstream spec;
     spec << "tensor:" << R << ":" << sizeof(tscalar) << ":" << (scalar_traits<tscalar>::is_signed_int ? 1 : 0) << ":" << tname;
     tensor_info_t ti;
@@ -526,6 +569,11 @@ static void all_parameters()
                 try { ok = static_cast<bool>(::nano::read(stream, other)) && other == param; } catch (const std::exception&) {}
                 if (!ok) FAIL("ROUNDTRIP parameter kind %d: re-read parameter differs hex=%s", kind, hex(bytes).c_str());
             }
+            {
+                static parameter_t prev;
+                reuse_roundtrip("parameter", bytes, prev);
+                prev = param;
+            }
             process("param", bytes, make_reader<parameter_t>([] { return parameter_t{}; }), param_info(param));
         }
     }
@@ -609,6 +657,41 @@ static void all_features()
             bool               ok = false;
             try { ok = static_cast<bool>(::nano::read(stream, other)) && other == feature; } catch (const std::exception&) {}
             if (!ok) FAIL("ROUNDTRIP feature: re-read feature differs hex=%s", hex(bytes).c_str());
+        }
+        {
+            static feature_t prev;
+            reuse_roundtrip("feature", bytes, prev);
+            // same kind and label count, all labels / the name non-empty in the destination
+            auto named = feature_t{"previous"};
+            if (feature.is_sclass()) named.sclass(strings_t(feature.labels().size(), "stale"));
+            else if (feature.is_mclass()) named.mclass(strings_t(feature.labels().size(), "stale"));
+            reuse_roundtrip("feature", bytes, named);
+            prev = feature;
+        }
+        if (rep == 0)
+        {
+            // directed: empty strings in the stream (labels not yet discovered, unnamed feature) over non-empty ones
+            for (const auto& empty : {feature_t{}, feature_t{""}.sclass(3), feature_t{"f"}.mclass(2), feature_t{""}.sclass(strings_t{"", "b", ""})})
+            {
+                const auto ebytes = serialize(empty);
+                reuse_roundtrip("feature", ebytes, feature_t{"named"}.sclass(strings_t{"cat", "dog", "cow"}));
+                reuse_roundtrip("feature", ebytes, feature_t{"named"}.mclass(strings_t{"x", "y"}));
+            }
+            for (const auto& text : {std::string{}, std::string{"a"}, std::string(300, 'z')})
+            {
+                std::ostringstream out;
+                ::nano::write(out, text);
+                for (const auto& stale : {std::string{}, std::string{"stale"}, std::string(1000, 'q')})
+                {
+                    std::string        dest = stale;
+                    std::istringstream in(out.str());
+                    if (!::nano::read(in, dest) || dest != text)
+                    {
+                        FAIL("ROUNDTRIP-REUSED string: wrote %zu bytes, read back %zu bytes into a destination holding %zu bytes", text.size(),
+                             dest.size(), stale.size());
+                    }
+                }
+            }
         }
         std::ostringstream info;
         info << "ftype=" << scat(feature.type()) << ";name=" << hex(feature.name()) << ";labels=" << feature.labels().size();
